@@ -192,5 +192,6 @@ func Caps(rt *rapid.T) refterm.Caps {
 	c.AppID = rapid.SampledFrom([]string{"", "orig-app"}).Draw(rt, "appid")
 	c.DECRPMAbsent = rapid.SampledFrom([]int{0, 2, 1, 0}).Draw(rt, "decrpm-absent")
 	c.TcapNoValue = rapid.IntRange(0, 3).Draw(rt, "tcap-novalue") == 2
+	c.KittyInitial = rapid.SampledFrom([]int{0, 1, 0, 3}).Draw(rt, "kitty-initial")
 	return c
 }
